@@ -496,7 +496,7 @@ func TestVerifC16StoredOnce(t *testing.T) {
 		if dups >= 10 {
 			key = vJSON(c)
 		}
-		classes := []string{"part=cli", "version=" + c.Version, "compression=" + c.Compression, "dups-of-one-blob=" + vBucketC16cli(dups),
+		classes := []string{"part=cli", "version=" + c.Version, "compression=" + c.Compression, "cli-dups-of-one-blob=" + vBucketC16cli(dups),
 			"data-dups=" + vBucketC16cli(dataRefs-1), "tree-dups=" + vBucketC16cli(treeRefs-1), fmt.Sprintf("twins=%v", c.Twins > 0)}
 		seen := map[string]bool{}
 		for _, s := range c.Steps {
